@@ -15,7 +15,7 @@
    indices); every theorem quantifies over all oracles.  A `Raise`/`Stuck` outcome
    is not a returned set and nothing is claimed about it (as the property says).
    target_overhead is a rational num/den compared exactly (the code compares floats). *)
-From Coq Require Import Lia.
+From Coq Require Import Lia QArith.
 From Ctg Require Import Base Net BaseFacts NetFacts SlicerCosts SlicerFacts.
 Local Open Scope Z_scope.
 
@@ -180,6 +180,39 @@ Theorem C07_trial_never_stuck : forall fd oracle ch, Inv (f_cost0 fd) -> cache_o
 Proof. exact trial_never_stuck. Qed.
 Print Assumptions C07_trial_never_stuck.
 
+(* the executable cross-check scratch_b (evaluated on every cache entry of every replayed
+   search) is sound: success means the table and the predictions are the tree's *)
+Theorem C07_scratch_checker_sound : forall n sl0 t xs c, (forall j, 0 < zget j (szd n)) ->
+  scratch_b n sl0 t (xs, c) = true ->
+  let sl := sl0 ++ slice_all xs in
+  c_tab c = tree_rows n sl t /\
+  c_nsl c * multiplicity n sl0 = multiplicity n sl /\
+  cc_total_flops c * multiplicity n sl0 = total_flops n sl t /\
+  match cc_size c with Some s => s | None => 0 end = max_size n sl t /\
+  c_orig c = sum_flops n sl0 t /\
+  forall j, In j (zd_keys (c_sd c)) ->
+    zd_get0 j (c_fred c) = fred_def (c_sd c) (tree_rows n sl t) j /\
+    zd_get0 j (c_wred c) = wred_def (c_sd c) (tree_rows n sl t) j.
+Proof. exact scratch_b_sound. Qed.
+Print Assumptions C07_scratch_checker_sound.
+
+(* target_overhead: the code compares the FLOAT quotient total_flops / original_flops with the
+   float target; the model compares exact rationals.  fdiv a b stands for Python's float(a / b)
+   as a rational; the two assumed facts are that rounding is monotone w.r.t. a representable
+   bound (fdiv_below) and that int / int is correctly rounded, i.e. has relative error at most
+   2^-53 for operands in [1, 2^1000) (fdiv_err).  Whenever the executable side condition
+   over_safe_b holds -- it is evaluated inside Coq for every cost object of every replayed
+   search that has a target_overhead -- the float test `overhead > target` and the model's
+   over_gt give the same answer (hence also `overhead <= target` in best / already_satisfied). *)
+Theorem C07_overhead_float_agrees : forall fdiv : Z -> Z -> Q,
+  (forall (a b : Z) (tf : Q), (1 <= b)%Z -> (quot a b <= tf)%Q -> (fdiv a b <= tf)%Q) ->
+  (forall a b : Z, (1 <= a < FB)%Z -> (1 <= b < FB)%Z -> (quot a b * (1 - (1 # P53)) <= fdiv a b)%Q) ->
+  forall (c : costs) (num den : Z), over_safe_b c (num, den) = true ->
+  let tf := quot num den in
+  ((tf < fdiv (cc_total_flops c) (c_orig c))%Q <-> over_gt c (num, den) = true).
+Proof. exact over_float_agrees. Qed.
+Print Assumptions C07_overhead_float_agrees.
+
 (* utils.MaxCounter: add / discard keep the cached maximum equal to the maximum *)
 Theorem C07_maxcounter_add : forall x m f, mc_inv m f ->
   mc_inv (mc_add x m) (fun y => if Z.eqb y x then S (f y) else f y).
@@ -235,3 +268,16 @@ Example C07_nonvacuous_termination :
                         | Ret (_, r) => Ret r | Raise k => Raise k | Stuck => Stuck end)
   = (0, Some ([0; 1], (Some 2%Z, (72%Z, 6%Z)))).
 Proof. split; [exact first_key_picks_candidates|]. split; vm_compute; reflexivity. Qed.
+
+(* the overhead side condition is satisfiable, also for a non-dyadic decimal target (1.1 as the
+   exact value of its float): the trial slices 1, 0, 2 at overhead 1, the next index would double
+   the cost (overhead 2 > target), so the search returns {0,1,2}; all five compared cost objects
+   satisfy over_safe_b *)
+Example C07_nonvacuous_overhead :
+  search_over_safe_b (finder_of_tree ex_n [] ex_t AoTrue None (Some (3%Z, 2%Z)) None) [[1; 0; 2; 3]] = true
+  /\ search_over_safe_b (finder_of_tree ex_n [] ex_t AoTrue None
+                           (Some (2476979795053773%Z, 2251799813685248%Z)) None) [[1; 0; 2; 3]] = true
+  /\ obs_outcome obs_pred (search (finder_of_tree ex_n [] ex_t AoTrue None
+                           (Some (2476979795053773%Z, 2251799813685248%Z)) None) [[1; 0; 2; 3]])
+     = (0, Some ([0; 1; 2], (Some 1%Z, (72%Z, 12%Z)))).
+Proof. repeat split; vm_compute; reflexivity. Qed.
